@@ -12,14 +12,16 @@ pub fn deserialize_entity(message: &mut Bytes) -> Result<Entity> {
     let flagged_index: u64 = postcard_utils::from_buf(message)?;
     let has_generation = (flagged_index & 1) > 0;
     let generation = if has_generation {
-        postcard_utils::from_buf::<u32, _>(message)? + 1
+        postcard_utils::from_buf::<u32, _>(message)?
+            .checked_add(1)
+            .ok_or(postcard::Error::DeserializeBadEncoding)?
     } else {
         1u32
     };
 
     let bits = ((generation as u64) << 32) | (flagged_index >> 1);
 
-    Ok(Entity::from_bits(bits))
+    Ok(Entity::try_from_bits(bits)?)
 }
 
 /// Serializes `entity` by writing its index and generation as separate varints.
